@@ -316,7 +316,7 @@ func Inject(r *rng.R, p *Program) (Injection, bool) {
 			d.Fields[0].Label, d.Fields[1].Label = "same-label", "same-label"
 			return "two fields of one struct with the same go.label", true
 		}},
-		{"D23-duplicate-exception-in-throws", "K:D23", func() (string, bool) {
+		{"D23-duplicate-exception-in-throws", "B", func() (string, bool) {
 			for _, fn := range in.funcs() {
 				if len(fn.Throws) >= 1 && !fn.Oneway {
 					e := *fn.Throws[0]
@@ -336,7 +336,8 @@ func Inject(r *rng.R, p *Program) (Injection, bool) {
 			}
 			return "", false
 		}},
-		// ---- probes of known findings ----
+		// ---- probes of known findings (D13 D14 D23 D26 D27 are fixed in the repository: their
+		// shapes are ordinary class A/B injections now, so a regression is a disagreement) ----
 		{"D9-out-of-range-constant", "K:D9", func() (string, bool) {
 			f := p.Files[r.Intn(len(p.Files))]
 			f.Consts = append(f.Consts, &Constant{File: f, Name: "out_of_range", Type: &Type{K: I8}, Value: &Lit{K: LInt, I: 1000}})
@@ -357,7 +358,7 @@ func Inject(r *rng.R, p *Program) (Injection, bool) {
 			f.Defs = append(f.Defs, td, h)
 			return "default on a field whose type is a typedef of a list", true
 		}},
-		{"D13-exception-field-ErrorName", "K:D13", func() (string, bool) {
+		{"D13-exception-field-ErrorName", "B", func() (string, bool) {
 			d := in.pickDef(in.structs(1, Exception))
 			if d == nil {
 				return "", false
@@ -365,11 +366,14 @@ func Inject(r *rng.R, p *Program) (Injection, bool) {
 			d.Fields[0].Name, d.Fields[0].GoName = "ErrorName", ""
 			return "exception field named ErrorName", true
 		}},
-		{"D14-go-name-on-argument", "K:D14", func() (string, bool) {
+		{"D14-go-name-on-argument", "A", func() (string, bool) {
 			for _, fn := range in.funcs() {
 				if len(fn.Args) > 0 {
 					fn.Args[0].GoName = "RenamedArg"
-					return "go.name on a function argument", true
+					if len(fn.Throws) > 0 {
+						fn.Throws[0].GoName = "RenamedExc"
+					}
+					return "go.name on a function argument (and exception)", true
 				}
 			}
 			return "", false
@@ -385,7 +389,7 @@ func Inject(r *rng.R, p *Program) (Injection, bool) {
 			f.Defs = append(f.Defs, l, a, h)
 			return "struct List with map<List,list<A>> and map<list<List>,A>", true
 		}},
-		{"D26-field-named-MarshalLogObject", "K:D26", func() (string, bool) {
+		{"D26-field-named-MarshalLogObject", "B", func() (string, bool) {
 			d := in.pickDef(in.structs(1))
 			if d == nil {
 				return "", false
@@ -393,7 +397,7 @@ func Inject(r *rng.R, p *Program) (Injection, bool) {
 			d.Fields[0].Name, d.Fields[0].GoName = []string{"MarshalLogObject", "marshalLogObject"}[r.Intn(2)], ""
 			return "field named MarshalLogObject (clashes with the generated zap method unless --no-zap)", true
 		}},
-		{"D27-argument-named-like-enveloper-method", "K:D27", func() (string, bool) {
+		{"D27-argument-named-like-enveloper-method", "B", func() (string, bool) {
 			for _, fn := range in.funcs() {
 				if len(fn.Args) > 0 {
 					fn.Args[0].Name, fn.Args[0].GoName = []string{"methodName", "envelopeType", "MethodName"}[r.Intn(3)], ""
